@@ -368,7 +368,10 @@ class EBBMotionWrap(ebb3_serial.EBB3):
             return None
         if threshold is None:
             threshold = 250 # Typical threshold, when using 9 V power supply.
-        split_string = self.query('QC').split(",", 1)
+        response = self.query('QC')
+        if response is None:
+            return None # Query failed; the error has been recorded.
+        split_string = response.split(",", 1)
         split_len = len(split_string)
         if split_len > 1:
             voltage_value = int(split_string[1])  # Pick second value only
@@ -386,7 +389,10 @@ class EBBMotionWrap(ebb3_serial.EBB3):
         """
         if (self.port is None) or (self.err is not None):
             return None, None
-        split_string = self.query('QC').split(",", 1)
+        response = self.query('QC')
+        if response is None:
+            return None, None # Query failed; the error has been recorded.
+        split_string = response.split(",", 1)
         split_len = len(split_string)
         if split_len > 1:
             return int(split_string[0]), int(split_string[1])
